@@ -113,3 +113,23 @@ def extra(ctx):
         "oracle_lines_failed": len(fails),
     }
     return {"coverage": cov, "oracle_failures": oracle_failures, "known": known, "failures": failures}
+
+
+def replay(obj):
+    """Re-run one recorded case (model-vs-implementation disagreement or oracle failure)."""
+    import sys
+
+    import check  # the orchestrator (same directory)
+
+    if "case" not in obj:
+        print("this replay names a broken obligation, not an input; re-run the check itself")
+        return 1
+    mod = sys.modules[__name__]
+    r = check.standard_run(mod, obj.get("tier", "quick"), obj["seed"], only=obj["case"])
+    for d in r["disagreements"]:
+        print(f"case {d['case']} op {d['op_index']}: {d['op']}\n  impl : {d['impl']}\n  model: {d['model']}")
+    for d in r["oracle_failures"]:
+        print(f"case {d.get('case')}: clause {d.get('clause')}: {d.get('detail')}")
+    bad = bool(r["disagreements"] or r["oracle_failures"] or r["failures"])
+    print("replay:", "still fails" if bad else "passes")
+    return 1 if bad else 0
